@@ -437,6 +437,24 @@ func c08Contexts(x, y *term, partner *term) *failure {
 		{"expr-in-and", func(s string) string { return "MIT AND (" + s + " OR ISC)" }, func(string) []string { return []string{p, "MIT"} }},
 		{"expr-in-or", func(s string) string { return "(ISC AND Zlib) OR " + s }, func(string) []string { return []string{p} }},
 		{"list-among", func(string) string { return p + " AND MIT" }, func(s string) []string { return []string{"MIT", s, "ISC"} }},
+		// the list holds ONE of the spellings literally, beside an entry that makes the whole list invalid: both spellings of
+		// the expression must get the error (a literal-match shortcut answers before the list is validated)
+		{"literal-beside-invalid", func(s string) string { return s }, func(string) []string { return []string{p, x.text, "NOT-A-LICENSE"} }},
+		{"literal-beside-compound", func(s string) string { return s }, func(string) []string { return []string{x.text, "MIT AND ISC"} }},
+	}
+	if x.exc != "" {
+		// the same id with TWO different exceptions in the list, the expression carrying one of them in either spelling
+		bare := *x
+		bare.exc = ""
+		bare.build()
+		for _, e0 := range []string{tblExceptions[0], tblExceptions[len(tblExceptions)-1]} {
+			if e0 == x.exc {
+				continue
+			}
+			other := bare.text + " WITH " + e0
+			ctxs = append(ctxs, ctx{"two-exceptions-in-list", func(s string) string { return s }, func(string) []string { return []string{other, x.text} }},
+				ctx{"two-exceptions-in-list-other-spelling", func(s string) string { return s }, func(string) []string { return []string{y.text, other} }})
+		}
 	}
 	for _, c := range ctxs {
 		ex, ey := c.exprOf(x.text), c.exprOf(y.text)
@@ -447,7 +465,7 @@ func c08Contexts(x, y *term, partner *term) *failure {
 		rx, ry := implSat(ex, lx), implSat(ey, ly)
 		res.Evaluations++
 		count("ctx_" + c.name)
-		correspond("S "+hx(ey)+" "+hxl(ly), ry.String(), "Satisfies with the substituted spelling: model vs implementation", &kase{Expr: ey, ExprHex: hx(ey), Allowed: ly})
+		correspondNorm("S "+hx(ey)+" "+hxl(ly), ry.String(), "Satisfies with the substituted spelling: model vs implementation", &kase{Expr: ey, ExprHex: hx(ey), Allowed: ly}, okErr)
 		if rx.String() != ry.String() {
 			return &failure{Stream: "oracle", What: fmt.Sprintf("substituting %s for %s changed Satisfies (%s): second call Satisfies(%s, %s)", show(y.text), show(x.text), c.name, show(ey), joinShow(ly)),
 				Case: &kase{Expr: ex, ExprHex: hx(ex), Allowed: lx, Extra: map[string]string{"other_expr": ey, "other_list": hxl(ly)}}, Impl: ry.String(), Expected: rx.String()}
@@ -876,10 +894,16 @@ func init() {
 					}
 				}
 			}
+			// the list holds the LIST spelling literally beside an entry that makes the list invalid: the typed case of the
+			// expression (or of the entry) must not decide whether the error is reported
+			pairs = append(pairs,
+				[2]call{{e0, append(append([]string{}, l0...), "NOT-A-LICENSE")}, {e1, append(append([]string{}, l0...), "NOT-A-LICENSE")}},
+				[2]call{{e0, append([]string{"Apache-3.0"}, l0...)}, {e0, append([]string{"Apache-3.0"}, e1)}},
+				[2]call{{e0, append(append([]string{}, l0...), "MIT AND ISC")}, {e1, append(append([]string{}, l0...), "MIT AND ISC")}})
 			for _, p := range pairs {
 				r0, r1 := implSat(p[0].e, p[0].a), implSat(p[1].e, p[1].a)
 				count("sat_compared")
-				correspond("S "+hx(p[1].e)+" "+hxl(p[1].a), r1.String(), "Satisfies on a case variant: model vs implementation", &kase{Expr: p[1].e, ExprHex: hx(p[1].e), Allowed: p[1].a})
+				correspondNorm("S "+hx(p[1].e)+" "+hxl(p[1].a), r1.String(), "Satisfies on a case variant: model vs implementation", &kase{Expr: p[1].e, ExprHex: hx(p[1].e), Allowed: p[1].a}, okErr)
 				if r0.String() != r1.String() {
 					return &failure{Stream: "oracle", What: fmt.Sprintf("letter case changed Satisfies: Satisfies(%s,%s)", show(p[1].e), joinShow(p[1].a)), Case: &kase{Expr: p[1].e, ExprHex: hx(p[1].e), Allowed: p[1].a, Extra: map[string]string{"list_spelling_expr": p[0].e, "list_spelling_allowed": hxl(p[0].a)}}, Impl: r1.String(), Expected: r0.String()}
 				}
